@@ -301,6 +301,7 @@ func run0(b []byte, n int) Result {
 	}
 	res.Tags = append(res.Tags, "split-"+tagc(errSp))
 	// ... agree with the stream on kind / content / rest and on accept / reject
+	var obSSp Sx
 	{
 		rd2 := bytes.NewReader(cp())
 		s2 := rlp.NewStream(rd2, 0)
@@ -316,6 +317,11 @@ func run0(b []byte, n int) Result {
 			} else {
 				sc, err = s2.Bytes()
 			}
+		}
+		if err != nil {
+			obSSp = erv(err)
+		} else {
+			obSSp = okv(I(int64(sk)), B(sc), I(int64(rd2.Len())))
 		}
 		if (err == nil) != (errSp == nil) {
 			fails = append(fails, fmt.Sprintf("Split err=%v but stream Kind/Bytes err=%v", errSp, err))
@@ -449,7 +455,7 @@ func run0(b []byte, n int) Result {
 		fails = append(fails, "DecodeBytes(uint64) and SplitUint64 disagree on acceptance")
 	}
 
-	res.Obs = L(obG, obS, obSp, obSS, obSL, obU, obC, ob8, ob16, ob32, ob64, obBig, ob256, obBool, obBs, obArr)
+	res.Obs = L(obG, obS, obSp, obSSp, obSS, obSL, obU, obC, ob8, ob16, ob32, ob64, obBig, ob256, obBool, obBs, obArr)
 	if len(fails) > 0 {
 		res.Oracle = strings.Join(fails, "; ")
 	}
